@@ -366,7 +366,7 @@ CLAIMED["C07"] = {
     "that are not proved), Angle with a sampled radius, "
     "ToCartesian, AnglePair, CombinedReparameterisation's update / prior "
     "methods and its order checks, "
-    "FlowProposal.rescale, all GW reparameterisations, logit with eps "
+    "all GW reparameterisations, logit with eps "
     "(clipping is not a bijection), behaviour at the bounds and floating-"
     "point closeness. Domain = where the map is regular (open interval "
     "for logit / log, xmin < xmax, scale != 0, finite inputs as E(x) > 0).",
@@ -409,11 +409,15 @@ CLAIMED["C08"] = {
     "transforms are bijections with correct log-determinants (glasflow / "
     "torch code: assumed as the abstract-flow axioms), normalisation of the "
     "density (an integral), floating-point tolerances, conditional inputs "
-    "(conditional=None only); FlowProposal.rescale / inverse_rescale are "
-    "assumed to implement one bijection with cancelling Jacobians (C07 "
-    "proves that for the elementary maps only); the importance sampler's "
-    "proposal (compute_log_Q / update_log_q) and the augmented / GW "
-    "proposals are not under contract.",
+    "(conditional=None only); in the density contracts the configured "
+    "reparameterisation appears as one abstract bijection with cancelling "
+    "Jacobians (C07 proves that for the elementary maps, RescaleToBounds, "
+    "the null and the combined reparameterisation; the plumbing of "
+    "FlowProposal.rescale / inverse_rescale is proved here); the "
+    "importance sampler's proposal contracts (compute_log_Q, update_log_q, "
+    "draw, inverse_rescale, constructor) are those of C03 and are part of "
+    "this check; the augmented / GW proposals are not under contract. "
+    "Known finding: ImportanceFlowProposal(clip=True).",
 }
 
 CLAIMED["C03"] = {
@@ -461,8 +465,10 @@ CLAIMED["C03"] = {
     "log-Jacobians, get_proposal_log_prob(k) = LPX(k, .). Not "
     "decided: that samples lie in the unit hypercube and that logL equals "
     "the model's value (C10 proves the batch evaluation), finalise / "
-    "adjust_final_samples / resume, update_sample_counts (bincount), "
-    "floating point.",
+    "adjust_final_samples, update_sample_counts (bincount), floating "
+    "point. (resume_from_pickled_sampler, the proposal's constructor and "
+    "inverse_rescale, and FlowModel.train's save-after-finalise order ARE "
+    "under contract; clip=True is a known finding.)",
 }
 
 CLAIMED["C09"] = {
